@@ -129,6 +129,9 @@ pub struct MemBuildCase {
     pub every: u64,
     /// acceptance behaviour of the discarding sink
     pub shape: Shape,
+    /// feed all keys through ONE `extend_iter` call over a slice (exact
+    /// size hint) instead of an insert loop
+    pub bulk: bool,
 }
 
 #[derive(Clone, Debug)]
@@ -181,6 +184,16 @@ pub fn run_mem_build(case: &MemBuildCase) -> MemBuildRun {
         violation: None,
         digest: 0,
     };
+    let bulk_items: Vec<(Vec<u8>, u64)> = if case.bulk {
+        (0..fam.n)
+            .map(|i| {
+                fam.key_into(i, &mut key);
+                (key.clone(), fam.value(i))
+            })
+            .collect()
+    } else {
+        Vec::new()
+    };
     let base = alloc::mark();
     let r = catch_unwind(AssertUnwindSafe(|| -> Option<Violation> {
         let mut b = match AnyBuilder::create(front, tap, case.registry) {
@@ -194,7 +207,47 @@ pub fn run_mem_build(case: &MemBuildCase) -> MemBuildRun {
                 format!("after new(): {} B live > bound {} B", run.after_new, bound),
             );
         }
-        for i in 0..fam.n {
+        if case.bulk {
+            // the slice is harness memory allocated before the baseline; the
+            // builder sees one extend_iter call whose iterator reports the
+            // exact number of items
+            let mut over: Option<(u64, i64)> = None;
+            let mut cnt = 0u64;
+            let every = case.every;
+            let base_live = base.live;
+            let it = bulk_items.iter().inspect(|_| {
+                cnt += 1;
+                if cnt % every == 0 {
+                    let live = alloc::live() - base_live;
+                    run.checkpoints += 1;
+                    if live > run.max_live {
+                        run.max_live = live;
+                    }
+                    if live > bound && over.is_none() {
+                        over = Some((cnt, live));
+                    }
+                }
+            });
+            let r = match &mut b {
+                AnyBuilder::Map(m) => m.extend_iter(it.map(|(k, v)| (k, *v))),
+                AnyBuilder::Set(s) => s.extend_iter(it.map(|(k, _)| k)),
+                AnyBuilder::Raw(r) => r.extend_iter(it.map(|(k, v)| (k, fst::raw::Output::new(*v)))),
+            };
+            if let Err(e) = r {
+                return viol("C13.harness.insert_failed", format!("extend_iter: {:?}", e));
+            }
+            run.live_at_end = alloc::live() - base.live;
+            if let Some((i, live)) = over {
+                return viol(
+                    "C13.live_heap_exceeds_bound",
+                    format!(
+                        "inside extend_iter over {} items, after {} of them: {} B live > bound {} B (cache {:?})",
+                        fam.n, i, live, bound, case.registry.unwrap_or((10_000, 2))
+                    ),
+                );
+            }
+        }
+        for i in 0..(if case.bulk { 0 } else { fam.n }) {
             fam.key_into(i, &mut key);
             let r = match &mut b {
                 AnyBuilder::Map(m) => m.insert(&key, fam.value(i)),
@@ -369,6 +422,24 @@ fn measure_all(fam: &KeyFamily, k: u32, fsts_bytes: &[Vec<u8>]) -> Vec<OpMeasure
         }
         hits
     }));
+    // the same data as a version-2 file (no checksum trailer): older files
+    // must open and answer look-ups without allocating as well
+    let mut v2 = main[..main.len() - 4].to_vec();
+    v2[..8].copy_from_slice(&2u64.to_le_bytes());
+    out.push(measure("open+get.v2", || {
+        let f = fst::raw::Fst::new(&v2[..]).expect("harness: open v2");
+        let m = fst::Map::new(&v2[..]).expect("harness: open v2");
+        let mut hits = 0;
+        for p in &probes {
+            if f.get(p).is_some() {
+                hits += 1;
+            }
+            if m.contains_key(p) {
+                hits += 1;
+            }
+        }
+        hits
+    }));
     let maps: Vec<fst::Map<&[u8]>> = fsts_bytes
         .iter()
         .map(|b| fst::Map::new(&b[..]).expect("harness: open"))
@@ -508,7 +579,7 @@ pub fn read_bound(name: &str, keylen: u32) -> i64 {
         .next()
         .and_then(|s| s.parse().ok())
         .unwrap_or(2);
-    if name == "open+get" {
+    if name.starts_with("open+get") {
         0
     } else if name.contains(".k") || name.starts_with("is_") {
         k * (4096 + 512 * l) + 4096
@@ -531,11 +602,11 @@ pub fn run_mem_read(case: &MemReadCase) -> MemReadRun {
             }
         }
         for m in run.small.iter().chain(run.large.iter()) {
-            if m.name == "open+get" {
+            if m.name.starts_with("open+get") {
                 if m.allocs != 0 {
                     return viol(
                         "C14.open_or_lookup_allocates",
-                        format!("open + 5000 look-ups on borrowed bytes made {} allocations", m.allocs),
+                        format!("{}: open + point look-ups on borrowed bytes made {} allocations", m.name, m.allocs),
                     );
                 }
                 continue;
@@ -698,6 +769,9 @@ pub fn run_big_roundtrip(pid: &str, case: &MemBuildCase) -> BigRun {
         if let Err(e) = f.verify() {
             return viol(&format!("{}.verify_rejects_fresh_build", pid), format!("{:?}", e));
         }
+        if let Some(v) = crate::exec::unaligned_verify(pid, &bytes) {
+            return Some(v);
+        }
         if f.len() as u64 != fam.n || f.is_empty() != (fam.n == 0) {
             return viol(
                 "C01.len_or_is_empty_wrong",
@@ -737,5 +811,96 @@ pub fn run_big_roundtrip(pid: &str, case: &MemBuildCase) -> BigRun {
         Ok(v) => v,
         Err(p) => viol(&format!("{}.reader_panicked", pid), panic_msg(p)),
     };
+    out
+}
+
+// ------------------------------------- C11: faults on a multi-MiB build
+
+/// Stream a large family into a sink whose FIRST flush call fails, whenever
+/// that call comes (on the pinned tree the only flush is the final one; a
+/// builder that flushes periodically must report a failed intermediate flush
+/// from the call in progress as well). Also: a write that fails far into
+/// the build (node cache full, evictions happening).
+pub fn run_big_fault(case: &MemBuildCase, fault_write_at: Option<usize>) -> BigRun {
+    use crate::sink::{ErrKind, WStep};
+    let fam = case.fam;
+    let mut plan = Plan::clean();
+    match fault_write_at {
+        None => plan.fault_flush = Some((0, ErrKind::Other)),
+        Some(i) => plan.fault_write = Some((i, WStep::Err(ErrKind::StorageFull))),
+    }
+    let mut sink = SinkState::new(plan, Decider::Random { shape: case.shape, rng: Rng::new(fam.seed ^ 0x99) }, &[]);
+    sink.keep_log = false;
+    sink.record = false;
+    sink.discard = true;
+    let sink = sink.handle();
+    let (tap, _t) = Tap::new(sink.clone(), case.bufcap);
+    let front = if case.map { Front::Map } else { Front::Set };
+    let mut key = Vec::new();
+    let mut out = BigRun { violation: None, digest: 0, bytes: 0, short: 0, intr: 0 };
+    let want_kind = if fault_write_at.is_none() { std::io::ErrorKind::Other } else { std::io::ErrorKind::StorageFull };
+    let r = catch_unwind(AssertUnwindSafe(|| -> Option<Violation> {
+        let mut b = match AnyBuilder::create(front, tap, case.registry) {
+            Ok(b) => b,
+            Err(e) => {
+                return if sink.borrow().first_fault_event.is_some() {
+                    None
+                } else {
+                    viol("C11.harness.constructor_failed", format!("{:?}", e))
+                }
+            }
+        };
+        let judge = |r: &fst::Result<()>, what: &str, fired: bool| -> Option<Option<Violation>> {
+            // Some(x) = stop with verdict x; None = go on
+            match (r, fired) {
+                (Ok(()), false) => None,
+                (Ok(()), true) => Some(viol(
+                    "C11.O2.fault_not_surfaced_as_io_error",
+                    format!("the sink failed during {} which returned Ok", what),
+                )),
+                (Err(fst::Error::Io(e)), true) if e.kind() == want_kind => Some(None),
+                (Err(e), f) => Some(viol(
+                    "C11.O2.fault_not_surfaced_as_io_error",
+                    format!("{} returned {:?} (sink fault fired: {})", what, e, f),
+                )),
+            }
+        };
+        for i in 0..fam.n {
+            fam.key_into(i, &mut key);
+            let r = match &mut b {
+                AnyBuilder::Map(m) => m.insert(&key, big_value(&fam, true, i)),
+                AnyBuilder::Set(s) => s.insert(&key),
+                AnyBuilder::Raw(r) => r.add(&key),
+            };
+            let fired = sink.borrow().first_fault_event.is_some();
+            if let Some(verdict) = judge(&r, &format!("insert #{}", i), fired) {
+                return verdict;
+            }
+        }
+        let (r, _) = b.finish(Fin::Finish);
+        let fired = sink.borrow().first_fault_event.is_some();
+        match judge(&r, "finish", fired) {
+            Some(verdict) => verdict,
+            // the write index chosen for the fault was never reached
+            None if fault_write_at.is_some() => None,
+            None => viol(
+                "C11.O4.finished_without_flush",
+                "finish returned Ok and the sink never saw the flush call that was set to fail".into(),
+            ),
+        }
+    }));
+    out.violation = match r {
+        Ok(v) => v,
+        Err(p) => viol("C11.O1.panic", panic_msg(p)),
+    };
+    let st = sink.borrow();
+    out.bytes = st.total_accepted;
+    out.short = st.fired.short;
+    out.intr = st.fired.intr;
+    let mut d = Digest::new();
+    d.u64(out.bytes);
+    d.u64(st.ev_idx);
+    d.u64(out.violation.is_some() as u64);
+    out.digest = d.finish();
     out
 }
